@@ -927,6 +927,7 @@ func (r *seqRun) opInject(st Step) (*evid.Failure, bool) {
 	if homeOf(dst) != 0 && homeOf(dst) != nic {
 		evid.Label("inject:on-foreign-interface")
 	}
+	evid.Eval(1) // an evaluation is one judged injection (plus one per history from the Spec runner)
 	nt := v.Levels >= 2 || (v.Best < 0 && v.SamePort)
 	if nt {
 		r.hadNT = true
